@@ -332,7 +332,9 @@ func genPrio(engine, prop string, r *simrt.SplitMix) *PrioSc {
 	for try := 0; ; try++ {
 		prios = append([]uint(nil), prioSets[r.Intn(len(prioSets))]...)
 
-		if r.Intn(3) == 0 {
+		randomSet := r.Intn(3) == 0
+
+		if randomSet {
 			// a random set of close values: with Rate and a small H the full set may get a
 			// handler each while some subset does not (accepted by the constructor, "fatal"
 			// by the utils' definition)
@@ -358,6 +360,17 @@ func genPrio(engine, prop string, r *simrt.SplitMix) *PrioSc {
 
 		if sc.Class == "createfault" {
 			break
+		}
+
+		if randomSet && r.Intn(2) == 0 {
+			// the smallest quantity the constructor accepts for this set: with Rate the full
+			// set then typically gets one handler each while subsets do not divide evenly
+			for hq := n; hq < n+24; hq++ {
+				if acceptable(sc.Divider, prios, hq) {
+					sc.H = hq
+					break
+				}
+			}
 		}
 
 		if acceptable(sc.Divider, prios, sc.H) {
